@@ -581,6 +581,18 @@ def build_cases(tr, mism, points, mcov):
         if s == "CGKO06.SSE2":
             # a small file-size bound makes `max` small, so that n + max needs more bytes than max alone
             cases.append((s, "bigresult-smallmax", dict(d, param_max_file_size=100), [300, 1]))
+    # length profiles on either side of every layout threshold that only larger databases reach (MC_Boundaries, as in C01):
+    # an index, token or result whose field widths change there has to survive the wire too
+    nb = 0
+    for s, cfg, maxn in se.boundary_families(tr):
+        bs, r = se.model_boundaries(s, cfg, maxn)
+        if len(bs) > 14 and tr == "quick":
+            bs = bs[:2] + bs[2::4]
+        for p in bs:
+            if sum(p) <= 1200:
+                cases.append((s, "boundary", cfg, p))
+                nb += 1
+    mcov["model"]["boundary_profiles"] = nb
     mcov["model"]["MC_Profiles_runs"] = runs
     return cases
 
@@ -593,7 +605,14 @@ def run_one(job, hists):
     if case.setup["out"] != "built":
         traces.append(dict(meta, tid="c%d.setup" % i, hist=["Setup"], ev=case.run(["Setup"])))
         return traces
-    for hi, h in enumerate(hists):
+    if name == "boundary":
+        # the pipeline in which everything crosses the wire, the one in which nothing does, and two more
+        hs = sorted(hists, key=lambda h: (len(h), h))
+        sel = {0, len(hs) - 1, (7 * i + 3) % len(hs), (13 * i + 5) % len(hs)}
+        use = [(hi, hs[hi]) for hi in sorted(sel)]
+    else:
+        use = list(enumerate(hists))
+    for hi, h in use:
         traces.append(dict(meta, tid="c%d.h%d" % (i, hi), hist=list(h), ev=case.run(h)))
     for j, ev in enumerate(case.run_remote()):
         traces.append(dict(meta, tid="c%d.remote%d" % (i, j), hist=["remote"], ev=ev))
